@@ -343,13 +343,24 @@ pub fn faulty_walk(rng: &mut Rng, tokens: &[&str], max_len: usize) -> ClientPlan
 fn cp437_token(rng: &mut Rng) -> String {
     // every CP437 byte except a trailing NUL; decoded through the code page so
     // that the client can encode it back
-    let cap = if rng.pct(80) { 12 } else { 65 };
-    let len = rng.usize_below(cap);
+    // lengths: mostly short; one in eight sits where one of the enclosing TLV lengths
+    // (1F63 token, E9 = token + 9, BMP 06 = token + 11) crosses 127/128, 255/256, or is long
+    let len = match rng.below(16) {
+        0 => 110 + rng.usize_below(22),
+        1 => 240 + rng.usize_below(20),
+        2 => *rng.pick(&[116usize, 117, 118, 119, 120, 127, 128, 129, 244, 245, 246, 247, 255, 256, 257, 500, 1000, 5000]),
+        3 | 4 | 5 => rng.usize_below(65),
+        _ => rng.usize_below(12),
+    };
     let mut bytes: Vec<u8> = (0..len)
         .map(|_| if rng.pct(50) { rng.range(0x20, 0x7e) as u8 } else { rng.next_u64() as u8 })
         .collect();
     while bytes.last() == Some(&0) {
         bytes.pop();
+        if len > 100 {
+            // keep the chosen length
+            bytes.push(0x41);
+        }
     }
     yore::code_pages::CP437.decode(&bytes).to_string()
 }
@@ -426,6 +437,27 @@ pub fn value_plan(rng: &mut Rng) -> ClientPlan {
                 rev: RevOutcome::success(),
                 cleanup: random_cleanup(rng),
             });
+        }
+    }
+    // a card is usually read before a transaction begins: whatever the terminal reported about
+    // the card (limits, identifiers) must not leak into the reservation / reversal requests
+    if rng.pct(50) {
+        let mut k = 0;
+        while k < ops.len() {
+            if matches!(ops[k], OpSpec::Begin { .. }) && rng.pct(60) {
+                ops.insert(
+                    k,
+                    OpSpec::ReadCard {
+                        card: CardOutcome {
+                            pre: rng.below(3) as u8,
+                            kind: random_card(rng),
+                            delay_ms: 0,
+                        },
+                    },
+                );
+                k += 1;
+            }
+            k += 1;
         }
     }
     let mut p = ClientPlan::plain(ops);
@@ -589,6 +621,119 @@ fn fault_at_every_point(name: &'static str, wl: Vec<Vec<OpSpec>>, kinds: Vec<Fau
     })
 }
 
+/// One public call whose exchange `ex` (0..9) the terminal aborts with `code` after `k`
+/// intermediate statuses and `prints` print packets.
+fn abort_exchange_plan(ex: u64, code: u8, k: u8, prints: u8) -> ClientPlan {
+    let begin = OpSpec::Begin {
+        token: "A".into(),
+        res: ResOutcome::success(),
+    };
+    let ab = EndSpec::Abort(code);
+    let ops = match ex {
+        0 => vec![OpSpec::ReadCard {
+            card: CardOutcome {
+                pre: k,
+                kind: CardKind::Abort(code),
+                delay_ms: 0,
+            },
+        }],
+        1 => vec![OpSpec::Begin {
+            token: "A".into(),
+            res: ResOutcome {
+                pre: k,
+                status: if k % 2 == 0 { StatusMode::Absent } else { StatusMode::WithReceipt },
+                prints,
+                end: ab,
+            },
+        }],
+        2 => vec![
+            begin,
+            OpSpec::Commit {
+                token: "A".into(),
+                amount: 100,
+                rev: RevOutcome {
+                    pre: k,
+                    status: k % 2 == 1,
+                    prints,
+                    end: ab,
+                },
+                cleanup: CleanupSpec::plain(),
+            },
+        ],
+        3 => vec![
+            begin,
+            OpSpec::Cancel {
+                token: "A".into(),
+                rev: RevOutcome {
+                    pre: k,
+                    status: k % 2 == 1,
+                    prints,
+                    end: ab,
+                },
+                cleanup: CleanupSpec::plain(),
+            },
+        ],
+        4 | 5 => {
+            // end-of-day inside the clean-up of commit (4) / cancel (5)
+            let cleanup = CleanupSpec {
+                eod: EodOutcome {
+                    pre: k,
+                    status: k % 2 == 1,
+                    prints,
+                    end: ab,
+                },
+                ..CleanupSpec::plain()
+            };
+            vec![
+                begin,
+                if ex == 4 {
+                    OpSpec::Commit {
+                        token: "A".into(),
+                        amount: 100,
+                        rev: RevOutcome::success(),
+                        cleanup,
+                    }
+                } else {
+                    OpSpec::Cancel {
+                        token: "A".into(),
+                        rev: RevOutcome::success(),
+                        cleanup,
+                    }
+                },
+            ]
+        }
+        6 => vec![OpSpec::Configure {
+            out: ConfigureOutcome {
+                sysinfo: ab,
+                ..ConfigureOutcome::plain()
+            },
+        }],
+        7 => vec![OpSpec::Configure {
+            out: ConfigureOutcome {
+                set_tid: ab,
+                init_pre: k,
+                ..ConfigureOutcome::plain()
+            },
+        }],
+        _ => vec![OpSpec::Configure {
+            out: ConfigureOutcome {
+                init: ab,
+                init_pre: k,
+                init_prints: prints,
+                ..ConfigureOutcome::plain()
+            },
+        }],
+    };
+    let mut p = ClientPlan::plain(ops);
+    if ex == 7 {
+        // make configure send SetTerminalId: configured id differs from the reported one
+        p.cfg.terminal_id = "00001234".into();
+        // Feig::new's own configure must succeed first, with the terminal keeping its id
+        p.init.set_tid = EndSpec::Abort(0x83);
+    }
+    p
+}
+
 // ---------------------------------------------------------------- the checks
 
 impl Check for ClientCheck {
@@ -732,6 +877,31 @@ impl Check for ClientCheck {
                     p.sched = client::default_sched_variants(i, rng.next_u64());
                     p
                 }));
+                // boundary sizes: the card arrives after 63..255 intermediate statuses, and / or in a
+                // status information of more than 254 bytes (long application lists)
+                fams.push(Family::new("long_preludes_and_big_status_packets", 8 * 6, true, |i, _| {
+                    let pre = [0u8, 63, 64, 65, 127, 128, 200, 255][(i % 8) as usize];
+                    let many = |n: usize| -> Vec<App> {
+                        (0..n)
+                            .map(|k| App {
+                                aid: Some(format!("a00000000{:05}", 41010 + k)),
+                                ctype: if k % 3 == 0 { Some("0005".into()) } else { None },
+                            })
+                            .collect()
+                    };
+                    let kind = match i / 8 {
+                        0 => CardKind::Card { uid: Some("04a1b2c3d4e5f6".into()), apps: None, nested_apps: None, no_tlv: false },
+                        1 => CardKind::Card { uid: Some("000000aabbccddeeff0011".into()), apps: Some(many(1)), nested_apps: None, no_tlv: false },
+                        2 => CardKind::Card { uid: None, apps: Some(many(21)), nested_apps: None, no_tlv: false },
+                        3 => CardKind::Card { uid: Some("04a1b2c3d4e5f6".into()), apps: Some(many(22)), nested_apps: None, no_tlv: false },
+                        4 => CardKind::Card { uid: Some("04a1b2c3d4e5f6".into()), apps: Some(many(60)), nested_apps: None, no_tlv: false },
+                        _ => CardKind::Card { uid: Some("0004a1b2c3d4e5f6".into()), apps: None, nested_apps: Some(many(40)), no_tlv: false },
+                    };
+                    let ops = (0..2).map(|_| OpSpec::ReadCard { card: CardOutcome { pre, kind: kind.clone(), delay_ms: 0 } }).collect();
+                    let mut p = ClientPlan::plain(ops);
+                    p.pt.rich_status = i % 2 == 1;
+                    p
+                }));
                 fams.push(Family::new("all_256_abort_codes", 256 * 2, true, |i, _| {
                     ClientPlan::plain(vec![OpSpec::ReadCard {
                         card: CardOutcome {
@@ -865,114 +1035,13 @@ impl Check for ClientCheck {
                     let code = (i % 256) as u8;
                     let k = ((i / 256) % 4) as u8;
                     let ex = i / 1024;
-                    let begin = OpSpec::Begin {
-                        token: "A".into(),
-                        res: ResOutcome::success(),
-                    };
-                    let ab = EndSpec::Abort(code);
-                    let ops = match ex {
-                        0 => vec![OpSpec::ReadCard {
-                            card: CardOutcome {
-                                pre: k,
-                                kind: CardKind::Abort(code),
-                                delay_ms: 0,
-                            },
-                        }],
-                        1 => vec![OpSpec::Begin {
-                            token: "A".into(),
-                            res: ResOutcome {
-                                pre: k,
-                                status: if k % 2 == 0 { StatusMode::Absent } else { StatusMode::WithReceipt },
-                                prints: k / 2,
-                                end: ab,
-                            },
-                        }],
-                        2 => vec![
-                            begin,
-                            OpSpec::Commit {
-                                token: "A".into(),
-                                amount: 100,
-                                rev: RevOutcome {
-                                    pre: k,
-                                    status: k % 2 == 1,
-                                    prints: k / 2,
-                                    end: ab,
-                                },
-                                cleanup: CleanupSpec::plain(),
-                            },
-                        ],
-                        3 => vec![
-                            begin,
-                            OpSpec::Cancel {
-                                token: "A".into(),
-                                rev: RevOutcome {
-                                    pre: k,
-                                    status: k % 2 == 1,
-                                    prints: k / 2,
-                                    end: ab,
-                                },
-                                cleanup: CleanupSpec::plain(),
-                            },
-                        ],
-                        4 | 5 => {
-                            // end-of-day inside the clean-up of commit (4) / cancel (5)
-                            let cleanup = CleanupSpec {
-                                eod: EodOutcome {
-                                    pre: k,
-                                    status: k % 2 == 1,
-                                    prints: k / 2,
-                                    end: ab,
-                                },
-                                ..CleanupSpec::plain()
-                            };
-                            vec![
-                                begin,
-                                if ex == 4 {
-                                    OpSpec::Commit {
-                                        token: "A".into(),
-                                        amount: 100,
-                                        rev: RevOutcome::success(),
-                                        cleanup,
-                                    }
-                                } else {
-                                    OpSpec::Cancel {
-                                        token: "A".into(),
-                                        rev: RevOutcome::success(),
-                                        cleanup,
-                                    }
-                                },
-                            ]
-                        }
-                        6 => vec![OpSpec::Configure {
-                            out: ConfigureOutcome {
-                                sysinfo: ab,
-                                ..ConfigureOutcome::plain()
-                            },
-                        }],
-                        7 => vec![OpSpec::Configure {
-                            out: ConfigureOutcome {
-                                set_tid: ab,
-                                init_pre: k,
-                                ..ConfigureOutcome::plain()
-                            },
-                        }],
-                        _ => vec![OpSpec::Configure {
-                            out: ConfigureOutcome {
-                                init: ab,
-                                init_pre: k,
-                                init_prints: k / 2,
-                                ..ConfigureOutcome::plain()
-                            },
-                        }],
-                    };
-                    let mut p = ClientPlan::plain(ops);
-                    if ex == 7 {
-                        // make configure send SetTerminalId: configured id differs from the reported one
-                        p.cfg.terminal_id = "00001234".into();
-                        // Feig::new's own configure must succeed first, with the terminal keeping its id
-                        p.init.set_tid = EndSpec::Abort(0x83);
-                    }
-                    p
+                    abort_exchange_plan(ex, code, k, k / 2)
+                }));
+                // the abort comes late: after 63..255 intermediate / print packets
+                fams.push(Family::new("abort_after_long_scripts", 9 * 6 * 4, true, |i, _| {
+                    let code = [0x00u8, 0x64, 0xb4, 0xff][(i % 4) as usize];
+                    let (k, prints) = [(63u8, 0u8), (64, 1), (65, 64), (127, 1), (129, 0), (255, 255)][((i / 4) % 6) as usize];
+                    abort_exchange_plan(i / 24, code, k, prints)
                 }));
                 // the configure step's end-of-day
                 fams.push(Family::new("configure_end_of_day_x_256_codes", 256, true, |i, _| {
@@ -1105,7 +1174,7 @@ impl Check for ClientCheck {
         let common = "one run = the real Feig::new (real configure) + a history of public calls against the stateful simulated terminal on a fault-free transport (schedules only: read chunking, short writes, Pending, emission delays below every timeout), every terminal outcome taken from the plan; the reference model predicts per call refusal without traffic or the exact command frames, the result class and the new token map; distinct = hash of per-call (name, result class, control fields sent, connection); non-trivial = at least one public call; states = distinct (token map, ledger) states";
         let own = match self.id {
             "C07" => "workload: every history over begin/commit/cancel x tokens {A,B,\"\"} to depth 3 (quick) / 4 (thorough) x max 0..3 x outcomes {success, abort, no receipt}; depth-5 call sequences with PRNG outcomes (thorough); PRNG walks to depth 40 over 5 tokens",
-            "C08" => "workload: boundary grid pre-authorisation {0,1,2,2500,99999,100000,10^12-2,10^12-1} x final {0,1,pre-1,pre,pre+1,2pre,u64::MAX,u64::MAX-1,2^63} x 3 currencies; PRNG amounts over every digit count, CP437 tokens (0..64 bytes), receipt counter incl. wrap, PT status fields over their ranges, password 0..999999, 1-3 concurrent transactions",
+            "C08" => "workload: boundary grid pre-authorisation {0,1,2,2500,99999,100000,10^12-2,10^12-1} x final {0,1,pre-1,pre,pre+1,2pre,u64::MAX,u64::MAX-1,2^63} x 3 currencies; PRNG amounts over every digit count, CP437 tokens (0..64 bytes, and lengths at which an enclosing TLV length crosses 127/128 and 255/256, up to 5000), receipt counter incl. wrap, PT status fields over their ranges, password 0..999999, 1-3 concurrent transactions",
             "C18" => "workload: grid of 16 UID forms x 9 application-list forms, each presented three times in one run under different schedules and delays; all 256 abort codes; PRNG cards (UID 0..20 bytes incl. zero padding, 0..4 applications) presented repeatedly",
             "C19" => "workload: commit/cancel x (other token open or not) x pending-query answer {FFFF, no BMP, dangling receipt} x end-of-day outcome {completion, all 256 abort codes} with and without intermediate/print packets; every history to depth 3; PRNG walks with clean-up variants",
             "C20" => "workload: 9 abort-capable exchanges (read card, reservation, partial reversal, pre-auth reversal, end-of-day after commit / after cancel, configure's system info / set terminal id / initialisation) x all 256 result codes x abort after k = 0..3 non-final packets; configure's end-of-day x 256; PRNG walks with raised abort rate",
